@@ -88,17 +88,21 @@ def run(tier):
     violations = [{"kind": "broken-proof-obligation", "what": b, "no_failing_input": True, "input": b} for b in po["broken"]]
     c = Counter()
     import docs as _docs
-    dl = _docs.handcrafted() + _docs.multi_section() + docrun.synthesized(sd + 1, 10 if tier == "quick" else 120, ncontracts=2, nblocks=5) + docrun.shipped(60000 if tier == "quick" else 900000)
+    dl = _docs.handcrafted() + _docs.multi_section() + docrun.synthesized(sd + 1, 10 if tier == "quick" else 120, ncontracts=2, nblocks=5) + docrun.shipped(60000 if tier == "quick" else 500000)
     osets = [["-greedy"], ["-greedy", "-storage"], ["-greedy", "-size", "-partition"], ["-greedy", "-push0"]]
     reqs = []
     samples = []
     reparse = []
     for i, o in enumerate(osets):
         sub = dl if tier != "quick" else dl[:10] + dl[10 + i::2]
-        for r in docrun.run_docs(sub, o):
+        for r in docrun.run_docs(sub, o, timeout=300 if tier == "quick" else 1200):
             c["documents"] += 1
             res = r["res"]
             outname = r["name"].split(".")[0] + "_optimized.json_solc"
+            if r["status"] == "timeout" or (res or {}).get("rc") == -9:
+                # how long a run may take is C10's question; a run the harness had to stop says nothing about what it would have written
+                c["undecided:run-stopped-by-the-harness-timeout"] += 1
+                continue
             if r["status"] != "ok" or res is None or res.get("rc") != 0 or outname not in res.get("files", {}):
                 violations.append({"kind": "no-output-file", "input": r["name"], "options": o,
                                    "what": "running %s with %s: status %s rc %s: %s" % (r["name"], o, r["status"], (res or {}).get("rc"), ((res or {}).get("stderr_tail") or "")[-300:])})
